@@ -61,11 +61,16 @@ type c05World struct {
 // refusingIssuer answers for a type and key id but refuses every request
 // (an issuer that is out of capacity, or whose key shares the truncated id).
 type refusingIssuer struct {
-	typ   uint16
-	keyID []byte
+	typ      uint16
+	keyID    []byte
+	leftover []byte
 }
 
 func (i refusingIssuer) Evaluate(req tokens.TokenRequest) ([]byte, error) {
+	// a failing issuer may hand back whatever it had when it failed: only the error counts
+	if i.leftover != nil {
+		return i.leftover, fmt.Errorf("refused")
+	}
 	return nil, fmt.Errorf("refused")
 }
 func (i refusingIssuer) TokenKeyID() []byte { return i.keyID }
@@ -119,8 +124,8 @@ func (w *c05World) setup() {
 		{batchIssuer2{w.issB}},
 		{batchIssuer1{w.issA}, batchIssuer1{w.issAp}, batchIssuer2{w.issB}},
 		// a refusing issuer with the same type and truncated key id in front of / behind the real one
-		{refusingIssuer{1, w.issA.TokenKeyID()}, batchIssuer1{w.issA}, refusingIssuer{2, w.issB.TokenKeyID()}, batchIssuer2{w.issB}},
-		{batchIssuer1{w.issA}, refusingIssuer{1, w.issA.TokenKeyID()}, batchIssuer2{w.issB}, refusingIssuer{2, w.issB.TokenKeyID()}, refusingIssuer{1, w.issAp.TokenKeyID()}},
+		{refusingIssuer{1, w.issA.TokenKeyID(), nil}, batchIssuer1{w.issA}, refusingIssuer{2, w.issB.TokenKeyID(), nil}, batchIssuer2{w.issB}},
+		{batchIssuer1{w.issA}, refusingIssuer{1, w.issA.TokenKeyID(), nil}, batchIssuer2{w.issB}, refusingIssuer{2, w.issB.TokenKeyID(), []byte{1, 2, 3}}, refusingIssuer{1, w.issAp.TokenKeyID(), bytes.Repeat([]byte{7}, 145)}},
 	}
 	w.configs = append(w.configs,
 		[]batched.Issuer{}, // no issuer at all
